@@ -292,3 +292,141 @@ Proof.
   fold t in Hcb. rewrite Hgr in Hcb. cbn [round_up g_h fst snd] in Hcb.
   apply (tlsf_reach_check_block_semantic HFake gr size ops Hc Hok f None sz align ty mo Hd Ha Hf). exact Hcb.
 Qed.
+
+(* ------------------------------------------------------------------ C03: Validate with vam's handler enabled *)
+
+Definition pairs (L : list span) : list (Z * Z) := map (fun s => (s_off s, s_size s)) L.
+
+Lemma region_at_range g p r : region_at g p = Some r -> 0 <= p /\ (Z.to_nat p < length (g_regions g))%nat.
+Proof.
+  unfold region_at. destruct (Z.ltb_spec p 0) as [Hlt|Hge]; [discriminate|]. intros Hn. split; [auto|].
+  apply nth_error_Some. congruence.
+Qed.
+
+Lemma vcount_fold g L :
+  pow2 (g_g g) ->
+  forall Ldone cnts,
+  length cnts = length (g_regions g) ->
+  (forall n, (n < length cnts)%nat -> nth n cnts 0 = tcount (g_g g) (Z.of_nat n) Ldone mod 65536) ->
+  (forall s, In s L -> exists r1 r2,
+       region_at g (start_slot g (s_off s)) = Some r1 /\ region_at g (end_slot g (s_off s) (s_size s)) = Some r2 /\
+       1 <= snd r1 /\ 1 <= snd r2) ->
+  exists cnts', fold_left (vcount_one g) (pairs L) (Some (cnts, true)) = Some (cnts', true) /\
+                length cnts' = length cnts /\
+                forall n, (n < length cnts')%nat -> nth n cnts' 0 = tcount (g_g g) (Z.of_nat n) (Ldone ++ L) mod 65536.
+Proof.
+  intros Hp. induction L as [|s L IH]; intros Ldone cnts Hlen Hinv Hall.
+  - exists cnts. rewrite app_nil_r. cbn. auto.
+  - destruct (Hall s (or_introl eq_refl)) as (r1 & r2 & Hr1 & Hr2 & H1 & H2).
+    cbn [pairs map fold_left]. cbn [vcount_one]. rewrite Hr1.
+    destruct (Z.leb_spec 1 (snd r1)); [|lia]. cbn [andb].
+    destruct (region_at_range _ _ _ Hr1) as (Hs0 & Hsl). destruct (region_at_range _ _ _ Hr2) as (He0 & Hel).
+    set (sl := start_slot g (s_off s)) in *. set (el := end_slot g (s_off s) (s_size s)) in *.
+    set (inc := fun c : Z => (c + 1) mod 65536).
+    assert (Hsd : sl = first_page (g_g g) s) by (unfold sl; rewrite start_slot_div by auto; reflexivity).
+    assert (Hed : el = last_page (g_g g) s) by (unfold el; rewrite end_slot_div by auto; reflexivity).
+    assert (Hstep : forall cnts2,
+               length cnts2 = length cnts ->
+               (forall n, (n < length cnts2)%nat ->
+                          nth n cnts2 0 = tcount (g_g g) (Z.of_nat n) (Ldone ++ [s]) mod 65536) ->
+               exists cnts', fold_left (vcount_one g) (pairs L) (Some (cnts2, true)) = Some (cnts', true) /\
+                             length cnts' = length cnts /\
+                             forall n, (n < length cnts')%nat ->
+                                       nth n cnts' 0 = tcount (g_g g) (Z.of_nat n) (Ldone ++ s :: L) mod 65536).
+    { intros cnts2 Hl2 Hi2.
+      destruct (IH (Ldone ++ [s]) cnts2 ltac:(congruence) Hi2 ltac:(intros s' Hs'; apply Hall; right; auto))
+        as (cnts' & E & Hl' & Hi').
+      exists cnts'. split; [exact E|]. split; [congruence|]. intros n Hn. rewrite (Hi' n Hn).
+      rewrite <- app_assoc. reflexivity. }
+    assert (Hone : forall n, tcount (g_g g) (Z.of_nat n) (Ldone ++ [s])
+                             = tcount (g_g g) (Z.of_nat n) Ldone + (if touchb (g_g g) (Z.of_nat n) s then 1 else 0)).
+    { intros n. rewrite tcount_app, tcount_cons. change (tcount (g_g g) (Z.of_nat n) []) with 0. lia. }
+    destruct (Z.eqb_spec sl el) as [Ese|Ese].
+    + apply Hstep; [apply update_nth_length|].
+      intros n Hn. rewrite update_nth_length in Hn. rewrite Hone. unfold touchb. rewrite <- Hsd, <- Hed, <- Ese.
+      destruct (Z.eqb_spec (Z.of_nat n) sl) as [En|En]; cbn [orb].
+      * replace n with (Z.to_nat sl) by lia. rewrite nth_update_nth_eq by lia.
+        rewrite (Hinv (Z.to_nat sl)) by lia. rewrite Z2Nat.id by lia. unfold inc.
+        rewrite Zplus_mod_idemp_l. reflexivity.
+      * rewrite nth_update_nth_neq by lia. rewrite (Hinv n Hn). f_equal. lia.
+    + rewrite Hr2. destruct (Z.leb_spec 1 (snd r2)); [|lia]. cbn [andb].
+      apply Hstep; [rewrite !update_nth_length; reflexivity|].
+      intros n Hn. rewrite !update_nth_length in Hn. rewrite Hone. unfold touchb. rewrite <- Hsd, <- Hed.
+      destruct (Z.eqb_spec (Z.of_nat n) el) as [En|En].
+      * replace n with (Z.to_nat el) by lia. rewrite nth_update_nth_eq by (rewrite update_nth_length; lia).
+        rewrite nth_update_nth_neq by lia.
+        rewrite (Hinv (Z.to_nat el)) by lia. rewrite Z2Nat.id by lia.
+        rewrite orb_true_r. unfold inc. rewrite Zplus_mod_idemp_l. reflexivity.
+      * rewrite nth_update_nth_neq by lia.
+        destruct (Z.eqb_spec (Z.of_nat n) sl) as [En2|En2]; cbn [orb].
+        -- replace n with (Z.to_nat sl) by lia. rewrite nth_update_nth_eq by lia.
+           rewrite (Hinv (Z.to_nat sl)) by lia. rewrite Z2Nat.id by lia. unfold inc.
+           rewrite Zplus_mod_idemp_l. reflexivity.
+        -- rewrite nth_update_nth_neq by lia. rewrite (Hinv n Hn). f_equal. lia.
+Qed.
+
+Lemma list_eqb_z_refl l : list_eqb_z l l = true.
+Proof. induction l as [|x l IH]; cbn; auto. rewrite Z.eqb_refl. auto. Qed.
+
+Lemma nth_repeat_Z0 n k : nth k (repeat 0 n) 0 = 0.
+Proof. revert k; induction n as [|n IH]; intros [|k]; cbn; auto. Qed.
+
+Theorem gran_validate_ok gr t :
+  GInv gr t -> Inv2 t -> gr < 65536 ->
+  gran_validate (t_gran t) (map (fun b => (b_off b, b_size b)) (live t)) = Some true.
+Proof.
+  intros HG HI Hgr. pose proof HG as [HT Hh Hg Hrange _ _ _ Htab].
+  unfold gran_validate. destruct (enabled (t_gran t)) eqn:Hen; cbn [negb]; [|reflexivity].
+  specialize (Htab eq_refl). pose proof (proj2 HT) as Hp.
+  assert (Hpairs : map (fun b => (b_off b, b_size b)) (live t) = pairs (spans t)).
+  { unfold pairs, spans. rewrite map_map. reflexivity. }
+  rewrite Hpairs.
+  destruct (vcount_fold (t_gran t) (spans t) Hp [] (repeat 0 (length (g_regions (t_gran t)))))
+    as (cnts' & E & Hl' & Hi').
+  - apply repeat_length.
+  - intros n Hn. rewrite nth_repeat_Z0. reflexivity.
+  - intros s Hs. apply in_spans in Hs. destruct Hs as (a & Ha & <-).
+    destruct (live_in_chain _ _ Ha) as (Hin & Hf).
+    destruct (region_bounds t a (proj1 HT) (or_intror Hin)) as (B0 & _ & B2).
+    pose proof (chain_in_bounds _ _ _ (g_chain _ (i_geom _ (proj1 HT))) Hin) as (_ & Bs & _).
+    destruct (slot_in_table (t_gran t) (t_size t) (b_off a) Hp (i2_gran _ HI) Hen ltac:(lia)) as (r1 & Hr1).
+    destruct (slot_in_table (t_gran t) (t_size t) (b_off a + b_size a - 1) Hp (i2_gran _ HI) Hen ltac:(lia)) as (r2 & Hr2).
+    exists r1, r2. cbn [sig s_off s_size fst snd]. split; [exact Hr1|]. split; [exact Hr2|].
+    assert (Hcnt : forall p r, region_at (t_gran t) p = Some r -> touchb gr p (sig a) = true -> 1 <= snd r).
+    { intros p r Hr Ht. destruct (Htab p r Hr) as (Hc & _). rewrite Hg in Hc.
+      pose proof (tcount_pos _ _ _ _ (live_span _ _ Ha) Ht) as Hpos.
+      pose proof (tcount_spans_le t gr p HT ltac:(lia)) as Hle.
+      rewrite Hc, Z.mod_small by lia. lia. }
+    split.
+    + apply (Hcnt _ _ Hr1). unfold touchb, first_page. cbn [sig s_off fst snd].
+      fold (start_slot (t_gran t) (b_off a)). rewrite start_slot_div by auto. rewrite Hg, Z.eqb_refl. reflexivity.
+    + apply (Hcnt _ _ Hr2). unfold touchb, last_page. cbn [sig s_off s_size fst snd].
+      fold (end_slot (t_gran t) (b_off a) (b_size a)). rewrite end_slot_div by auto. rewrite Hg, Z.eqb_refl.
+      apply orb_true_r.
+  - rewrite E. f_equal. cbn [andb].
+    replace cnts' with (map snd (g_regions (t_gran t))); [apply list_eqb_z_refl|].
+    rewrite repeat_length in Hl'.
+    apply nth_ext with (d := 0) (d' := 0); [rewrite map_length; congruence|].
+    intros n Hn. rewrite map_length in Hn. rewrite (Hi' n ltac:(lia)). cbn [app].
+    change 0 with (snd (0, 0)) at 1. rewrite map_nth.
+    assert (Hr : region_at (t_gran t) (Z.of_nat n) = Some (nth n (g_regions (t_gran t)) (0, 0))).
+    { unfold region_at. destruct (Z.ltb_spec (Z.of_nat n) 0); [lia|]. rewrite Nat2Z.id. apply nth_error_nth'. auto. }
+    destruct (Htab _ _ Hr) as (Hc & _). rewrite Hc. reflexivity.
+Qed.
+
+Theorem tlsf_vam_validate gr size ops :
+  cfg2_ok gr size -> 1 <= gr < 65536 -> Forall op_ok ops -> Forall op_kind_ok ops ->
+  validate (run (tlsf_init HVam gr size) ops) = Some true.
+Proof.
+  intros Hc Hgr Hok Hk.
+  destruct (reach_Inv2 HVam gr size ops Hc Hok) as (HT & HI).
+  pose proof (reach_GInv gr size ops (cfg2_cfg _ _ Hc) ltac:(lia) Hok Hk) as HG.
+  apply tlsf_validate; auto. apply (gran_validate_ok gr); auto. lia.
+Qed.
+
+Theorem tlsf_fake_validate gr size ops :
+  cfg2_ok gr size -> Forall op_ok ops -> validate (run (tlsf_init HFake gr size) ops) = Some true.
+Proof.
+  intros Hc Hok. destruct (reach_Inv2 HFake gr size ops Hc Hok) as (HT & HI).
+  apply tlsf_validate_disabled; auto. rewrite fake_gran_run. reflexivity.
+Qed.
